@@ -283,7 +283,8 @@ PROPS["C02"] = dict(
     level_text="Proof, complete per step: by_performing_move is executed symbolically on a fully symbolic position "
                "(16 pairwise-disjoint bitboards, side, rights, ep target, clocks) and a fully symbolic move of each of the "
                "eight move classes, and the successor is compared with a mailbox-level spec at a symbolic square; sequences "
-               "of moves follow by induction because by_performing_moves applies exactly one such step per loop iteration.",
+               "of moves follow by induction because by_performing_moves applies exactly one such step per loop iteration; its selection by "
+               "coordinates is proved against the generator's and the step function's contracts (legal lists of <= 3 moves, bounded).",
     level_note="Precondition: the move is consistent with the position (implied by 'legal move of a legal position'), a held "
                "castling right implies king and rook at home, clocks < usize::MAX. Trusted: Kani/CBMC, the mailbox spec.",
 )
@@ -324,7 +325,8 @@ PROPS["C08"] = dict(
         "key tables); it is covered by a native exhaustive stand-in (real hash; every one- and two-piece placement and the initial "
         "position, key tables from three seeds), listed as bounded; the twelve per-piece loops of hash are independent of each other by inspection",
     ],
-    technique="Kani/CBMC: structural contract of ZobristHasher::hash (XOR-homomorphism over fully symbolic key tables)",
+    technique="Kani/CBMC: structural contract of ZobristHasher::hash (XOR-homomorphism over fully symbolic key tables); en-passant separation per file "
+              "with the capture available; native exhaustive run for the placement part (bounded stand-in)",
     level_text="Proof of structure: for fully symbolic key tables the hash is shown to be the XOR of one table cell per piece, "
                "the turn key, one key per held castling right and the en-passant file key (empty-board formula + one-piece "
                "homomorphism step, composed by induction on the number of pieces), clocks are shown irrelevant, and with(rng) "
@@ -408,19 +410,19 @@ PROPS["C09"] = dict(
              "AttackGenerator::compute_{rook,bishop,queen}_attacks"], timeout=1800),
     ],
     assumptions=["the composition 'look-up after fill == unopt' needs the two fill loops (262 144 iterations over Vec), which cannot be "
-                 "executed symbolically here; given the subset-enumeration, perfect-hashing and off-mask obligations the fill loop can "
+                 "executed symbolically here; given the subset-enumeration, perfect-hashing, slide-mask, look-up and off-mask obligations the fill loop can "
                  "only fail by not being the loop it appears to be; that gap is covered by the native exhaustive stand-in only"],
-    technique="Kani/CBMC: geometry contracts of the ray/leaper/slider generators pointwise at symbolic squares; z3 on generated "
-              "verification conditions for the perfect hashing of the real magic constants; native exhaustive run for the table fill "
-              "and slide masks (bounded stand-in)",
-    level_text="Proof for geometry and for the perfect hashing of the real constants: Square::offset and BitBoard::shift never wrap; the "
+    technique="Kani/CBMC: geometry contracts of the ray/leaper/slider generators and slide-mask builders pointwise at symbolic squares; the slider look-ups "
+              "(extracted verbatim) against abstract tables; z3 on generated verification conditions for the perfect hashing of the real magic constants; "
+              "native exhaustive run for the two table fill loops (bounded stand-in)",
+    level_text="Proof for geometry, for the perfect hashing of the real constants and for the look-up functions: Square::offset and BitBoard::shift never wrap; the "
                "knight/king/pawn tables (through the real lazy statics), compute_ray, RAYS, both unoptimised slider generators "
-               "(symbolic square, target and occupancy against ray walking up to the first blocker) and the subset enumeration "
+               "(symbolic square, target and occupancy against ray walking up to the first blocker), the two slide-mask builders and the subset enumeration "
                "are proved against file/rank arithmetic; for every square the real magic multipliers (extracted every run) are proved "
-               "collision-free on attack sets by z3. The slide-mask tables, the filled magic tables and the look-ups are a bounded "
-               "(native, exhaustive) stand-in.",
-    level_note="Table fill loops and the final look-up expression: native exhaustive stand-in (all squares x all mask subsets x 3 noise "
-               "patterns), reported as bounded, never as proved.",
+               "collision-free on attack sets by z3; the rook/bishop/queen look-ups are proved to read their own table at the masked magic key for every "
+               "table content. Only the two table fill loops (262 144 iterations over Vec) are a bounded (native, exhaustive) stand-in.",
+    level_note="Table fill loops: native exhaustive stand-in (all squares x all mask subsets x 3 noise patterns through the real builders and look-ups), "
+               "reported as bounded, never as proved. The look-up contract ranges over four sparse magic multipliers per piece.",
 )
 
 PROPS["C01"] = dict(
@@ -517,10 +519,12 @@ PROPS["C17"] = dict(
                  "intrinsic via rayon); its head (memory taken over, root hash recorded) is extracted and under contract",
                  "the consequence in the property text (the search still reports a win and avoids the repeating move): a statement "
                  "about the whole search, not a function contract"],
-    technique="Kani/CBMC: contract on the early return of analyze_recursive with hasher, history and table replaced by their contracts",
+    technique="Kani/CBMC: contract on the early return of analyze_recursive with hasher, history and table replaced by their contracts; head of "
+              "analyze_iterative and StateHistory extracted verbatim",
     level_text="Proof of the local rule only: the early-return contract of analyze_recursive (repetition => EVEN without touching "
-               "the table or generating moves), the root exemption, and analyze_iterative recording the root hash, each for "
-               "symbolic inputs with the hasher, history and transposition table replaced by their contracts.",
+               "the table or generating moves), the root exemption, analyze_iterative's head recording the root hash (extracted verbatim), each for "
+               "symbolic inputs with the hasher, history and transposition table replaced by their contracts; StateHistory itself against a model of "
+               "std's HashMap for histories of <= 3 recordings (bounded).",
     level_note="The game-level consequence (still finds the other mate) is not claimed. Callee contracts assumed (C08, HashMap).",
 )
 PROPS["C03"] = dict(
@@ -539,8 +543,8 @@ PROPS["C03"] = dict(
     assumed_contracts=["State::by_performing_move (C02)", "ZobristHasher::hash (C08)", "TranspositionTableAccess::find (C15)"],
     not_claimed=["the line is non-empty and at least one report is made (needs the root entry to survive concurrent displacement: "
                  "a schedule/history statement)", "the table invariant itself (argued, see assumptions)"],
-    technique="Kani/CBMC: contract of the principal-line iterator step against the table and successor contracts",
-    level_text="Proof of the line builder's step only: every reported move is the table's move for the position reached so far "
+    technique="Kani/CBMC: contract of the principal-line iterator (start at the root, step) against the table and successor contracts",
+    level_text="Proof of the line builder only (start and step): the walk starts at the searched position; every reported move is the table's move for the position reached so far "
                "and the position is advanced by exactly that move, for symbolic position, index, depth limit and table answer; "
                "legality of the reported move then follows from the table invariant, which is argued, not proved.",
     level_note="Legality rests on the (unproved) table invariant and on C08; non-emptiness and 'at least one report' not claimed.",
@@ -573,7 +577,7 @@ PROPS["C13"] = dict(
                  "game-phase weight (c13_variation_mirror), and mirroring is a bijection on the pieces that only reorders i32 additions (commutative, "
                  "no overflow for <= 32 pieces of <= 50 each) -- the last step is argued",
                  "the move-generator oracle is the same for a position and its mirror (C01 is colour-symmetric by its contracts)"],
-    technique="Kani/CBMC: oddness of the float weighting, antisymmetry of evaluate against callee contracts, per-term mirror contracts",
+    technique="Kani/CBMC: oddness of the float weighting, antisymmetry of evaluate against callee contracts, per-term mirror contracts, sum-over-pieces lemma",
     level_text="Proof: the perspective antisymmetry evaluate(s,W,d) == -evaluate(s,B,d) is proved on the real control flow with "
                "abstract terms; mirror invariance is proved per term (square tables for all kinds/squares/weights; material, pawn "
                "structure and king-edge terms and the game-phase weight on fully symbolic positions vs. their mirrors) and composed.",
@@ -693,8 +697,8 @@ PROPS["C10"] = dict(
     level_text="Proof against an abstract attack function: is_check is 'king on a square attacked by the opponent' (complete, loop-free, "
                "arbitrary attacked sets); the attack map collects, for every own piece, exactly the callee's answer for (piece, square, "
                "board occupancy) minus own pieces and nothing else (spike attack function, fully symbolic positions), pawn map likewise; "
-               "cached answers independent of query order and of cloning before/after. <= 10 pieces per kind (complete for legal "
-               "positions) in the thorough tier.",
+               "cached answers independent of query order and of cloning before/after, and the board of a position reached by a move answers as a "
+               "freshly built board of its placement does. <= 10 pieces per kind (complete for legal positions) in the thorough tier.",
     level_note="Quick tier bounds piece counts to 3 per kind and colour (5 and 10, the legal maximum, in the thorough tier); the attack function "
                "is a symbolic spike (see assumptions).",
 )
@@ -724,8 +728,8 @@ PROPS["C12"] = dict(
           timeout=2400),
     ],
     assumptions=[],
-    technique="Kani/CBMC: SAN parser proved to invert a spec writer on every field tuple; MoveQuery::test contract; Lan writer "
-              "through core::fmt; UCI reader closure extracted verbatim and proved to invert Lan",
+    technique="Kani/CBMC: SAN parser proved to invert a spec writer on every field tuple; MoveQuery::test and MoveSet::find contracts; Lan writer "
+              "through core::fmt; UCI reader closure and the bestmove statement extracted verbatim (reader inverts Lan; bestmove prints Lan's text)",
     level_text="Proof, complete on the finite spelling domain: every admissible SAN field tuple is written by an in-harness spec "
                "writer and the real parser must return exactly those fields; MoveQuery::test is proved equivalent to field-wise "
                "agreement for symbolic query x symbolic move; so parse(SAN).test(m') <=> m' agrees with every spelled field. "
@@ -821,11 +825,12 @@ PROPS["C15"] = dict(
                  "std::sync::RwLock itself: the routing layer is verified against a sequential model of the lock (a harness through the real "
                  "futex-based RwLock exhausted the 12 GB cap in CBMC even for 2 sub-tables x 2 buckets)"],
     technique="Kani/CBMC contract proof of the 8-slot bucket over fully symbolic content + Verus proof of the table over a Vec of "
-              "any length on verbatim function bodies",
+              "any length on verbatim function bodies + Kani routing contract of the access layer (verbatim, sequential lock model)",
     level_text="Proof: the bucket contract is decided completely (all 8 slots, keys and entries symbolic); the table contract "
                "(representation invariant used_slots == number of occupied slots, lookup returns the entry under exactly that "
                "key, frame and displacement clauses) is proved by Verus for every bucket count on the verbatim bodies of "
-               "find/insert/entries/max_entries; histories follow by induction over these contracts.",
+               "find/insert/entries/max_entries; the access layer routes insert and find of a key to the same sub-table with the full key "
+               "(1..=8 sub-tables, sequential lock model); histories follow by induction over these contracts.",
     level_note="Concurrency is assumed through the lock discipline, not proved. The routing layer (insert/find/entries/max_entries of "
                "TranspositionTableAccess, verbatim) is verified against a sequential model of RwLock and the table's contract, for 1..=8 sub-tables.",
 )
